@@ -74,6 +74,11 @@ def _spell(y, how):
         return np.array([[y]], dtype=float)
     if how == "np32":
         return np.float32(y)  # single-precision models are common; the value observed is the rounded one
+    if how == "u64":
+        # an unsigned integer cost (sums over uint8 images, counts): np.sum of an unsigned array is an np.uint64 scalar
+        return np.uint64(min(int(round(abs(float(y)))), 2**62))
+    if how == "i32":
+        return np.int32(max(-2**31 + 1, min(2**31 - 1, int(round(float(y))))))
     if how == "arr0":
         return np.array(float(y))  # 0-d array (what np.sum over a reshaped array or a framework tensor conversion returns)
     raise ValueError(how)
